@@ -18,6 +18,8 @@ FEATURES = [
     'renamed_enum', 'number', 'binary', 'logical',
     'required_entity_ref',      # a non-OPTIONAL attribute whose value must contain an entity reference
     'selmember_renamed_enum',   # entity that is a select member (or its ancestor) has an attribute of a renamed enumeration type
+    'enum_prefix_items',        # enumeration items that are proper prefixes of other items of the same type
+    'select_chain_members',     # SELECT listing a defined type together with the defined type it renames
 ]
 
 ITEMS = ['red', 'green', 'blue', 'cyan', 'amber', 'violet', 'white', 'grey']
@@ -51,7 +53,13 @@ class Gen(object):
         if self.ok('renamed_enum') and rng.random() < .6:
             s.types.append(TypeDef('colour2', 'simple', base=NAMED('colour')))
         if rng.random() < .5:
-            s.types.append(TypeDef('mode', 'enum', items=['m_on', 'm_off'] + (['m_auto'] if rng.random() < .5 else [])))
+            items = ['m_on', 'm_off'] + (['m_auto'] if rng.random() < .5 else [])
+            if self.ok('enum_prefix_items') and rng.random() < .6:
+                # items that are proper prefixes of other items of the same type, longer-first and shorter-first
+                items = rng.choice([['m_on_hold', 'm_on', 'm_off'], ['m_off', 'm_offline', 'm_o'], ['mm', 'm', 'mmm'],
+                                    ['input_output', 'input', 'output'], ['left_handed', 'right_handed', 'left', 'right']])
+                s.tags.add('enum_prefix_items')
+            s.types.append(TypeDef('mode', 'enum', items=items))
         if self.ok('defined_aggr'):
             s.types.append(TypeDef('ilist', 'simple', base=AGG('LIST', INT(), 1, None)))
             if rng.random() < .4:
@@ -111,6 +119,16 @@ class Gen(object):
             s.types.append(TypeDef('esel', 'select', members=rng.sample(names, 2)))
         if self.ok('renamed_select') and rng.random() < .4:
             s.types.append(TypeDef('sel3', 'simple', base=NAMED('sel1')))
+        if self.ok('select_chain_members') and any(t.name == 'label2' for t in s.types) and rng.random() < .6:
+            # a defined type and the type it renames are both members (specialisation first or base first): the typed value's
+            # keyword is the only thing that tells them apart
+            m = ['label2', 'label', 'len']
+            if rng.random() < .5:
+                s.types.append(TypeDef('label3', 'simple', base=NAMED('label2')))
+                m.append('label3')
+            rng.shuffle(m)
+            s.types.append(TypeDef('tsel', 'select', members=m))
+            s.tags.add('select_chain_members')
         # ---- attributes
         for e in ents:
             k = rng.randint(1, 5)
@@ -256,7 +274,7 @@ class Gen(object):
             opts.append(('BINARY', 2))
         if self.ok('number'):
             opts.append(('NUMBER', 2))
-        for extra in ('label2', 'flag', 'qty', 'colour2', 'mode', 'ilist', 'rarr', 'sel2', 'esel', 'sel3', 'elist'):
+        for extra in ('label2', 'flag', 'qty', 'colour2', 'mode', 'ilist', 'rarr', 'sel2', 'esel', 'sel3', 'elist', 'tsel', 'label3'):
             if extra in tn:
                 opts.append((extra, 2))
         ch = rng.choices([o[0] for o in opts], [o[1] for o in opts])[0]
